@@ -53,6 +53,14 @@ const winUnit = 100 // one abstract time unit = 100 s
 
 const infDelta = 1000000 // abstract time delta standing for the largest configurable one
 
+// anchorTime concretises an abstract anchoring time; 2000000 stands for a transaction time beyond the signed 64-bit range.
+func anchorTime(t int) uint64 {
+	if t >= 2000000 {
+		return 1 << 63
+	}
+	return uint64(concr.BaseTime + t*winUnit)
+}
+
 func winSecs(x int) int64 {
 	if x == 0 {
 		return 0
@@ -163,7 +171,7 @@ func C05(c *ev.Ctx) {
 		req := reqs[fmt.Sprintf("%s/%d/%d", cs.C.Ty, cs.C.From, cs.C.Until)]
 		store := &wire.SliceStore{Ops: []*operation.AnchoredOperation{
 			{Type: operation.TypeCreate, UniqueSuffix: b.Suffix, OperationRequest: createReq, TransactionTime: concr.BaseTime - 5, TransactionNumber: 0, CanonicalReference: "ref-c"},
-			{Type: concr.OpType(cs.C.Ty), UniqueSuffix: b.Suffix, OperationRequest: req, TransactionTime: uint64(concr.BaseTime + cs.C.T*winUnit), TransactionNumber: 1, CanonicalReference: "ref-o"},
+			{Type: concr.OpType(cs.C.Ty), UniqueSuffix: b.Suffix, OperationRequest: req, TransactionTime: anchorTime(cs.C.T), TransactionNumber: 1, CanonicalReference: "ref-o"},
 		}}
 		rm, rerr := processor.New("verif", store, en.pc).Resolve(b.Suffix)
 		got := View{Doc: []int{}}
@@ -172,7 +180,7 @@ func C05(c *ev.Ctx) {
 		}
 		if !got.Equal(cs.Out.View) {
 			c.Violation(fmt.Sprintf("window-effect:%s:expected-%s", cs.C.Ty, cs.Out.Class), map[string]interface{}{"case": cs.C, "expected": cs.Out, "observed": got,
-				"anchorFrom": winSecs(cs.C.From), "anchorUntil": winSecs(cs.C.Until), "anchoring_time": concr.BaseTime + cs.C.T*winUnit,
+				"anchorFrom": winSecs(cs.C.From), "anchorUntil": winSecs(cs.C.Until), "anchoring_time": anchorTime(cs.C.T),
 				"maxOperationTimeDelta": cs.C.Delta * winUnit, "request": string(req)})
 		}
 		// intake: the time validator must receive (from, effective until)
